@@ -31,6 +31,11 @@ property and writes its own evidence file):
                 `build_tree`, `File::new` - for EVERY well-formed UTF-8 text of k bytes: no panic (this includes the
                 parser's own `assert_eq!(root.text_length, content.len())`), error spans inside the text; the returned green
                 tree is walked: node length == sum of the children, token texts concatenated == the text, byte for byte.
+  parse-skel/<id>  the same complete parser run and the same obligations as parse/L on a short concrete program skeleton
+                (PARSE_SKELETONS, <= 22 bytes) with ONE hole of 1 (2) fully symbolic bytes at a syntactically interesting position
+                (after `.`, parameter / pattern / type position, after `::`, type arguments, modifier, use tail, struct / enum
+                body, statement start, operator position, closing delimiter, template hole ...), so that parser code that needs a
+                syntactic context is reached.  Keys `parse-skel/<id>/<kind>`.  Program shapes outside the list are outside the claim.
   lines/L=k     `compute_line_starts(text)` for every text of k bytes, `compute_line_column` for every offset
                 0..k against the table, `get_line_content` for every line number 0..lines+1.
 """
